@@ -39,6 +39,24 @@ CLAIMED["C04"] = (
     "harness + fake Docker client; Go memory-model race freedom is not covered here (see C18).",
     "DESIGN.md 4 C04")
 
+CLAIMED["C15"] = (
+    "Coq proof (induction over entries: totality, sortedness, permutation, palette bounds) + differential correspondence renderResult vs model",
+    "Theorems render_total (no panic for any number of containers / any bytes / all 8 option sets; one line per entry), render_lines (lines = formatted entries of a "
+    "timestamp-sorted permutation; colour code a function of the container name alone, always a palette entry), colour_off_adds_nothing, trim_is_trailing_crlf_only, and the "
+    "refutation of the pre-fix palette index (D14, fixed). Tied to /repo by calling renderResult through a package-main hook and matching the output bytes inside Coq against "
+    "(a) the model's lines up to the order of equal timestamps and (b) the property itself with the colour assignment left free but required to be consistent.",
+    "Trusted: Coq kernel + vm_compute; TZ=UTC; time formatting instance Base/TimeFmt.v; order among equal timestamps unspecified (slices.SortFunc) and compared up to permutation; hook + generators.",
+    "DESIGN.md 4 C15")
+CLAIMED["C16"] = (
+    "Coq proof (Z arithmetic with lia, digit-string induction, one complete 1000-value float enumeration) + differential correspondence parseTimeRange/parseStep vs model",
+    "Theorems range_defaults_* / range_explicit_honoured, secs/nanos/rfc spelling characterisation and spellings_agree, default_step_formula (exact floor((end-start)/250s), all ranges), "
+    "explicit_step_positive, malformed_*_rejected, plus refutations of the pre-fix code (D15 step 0/NaN accepted, D22 float default step off by one; both fixed). PARTIAL: for fractional-second "
+    "spellings only the last float step is proved (frac_ms_final_step, complete enumeration of the 1000 ms values); correct rounding of strconv.ParseFloat and the recovery of the millisecond "
+    "count by math.Round are established by correspondence. Tied to /repo through a package-main hook on generated flag combinations with generator-computed expectations.",
+    "Trusted: Coq kernel + vm_compute with primitive floats; strconv.ParseFloat/ParseInt, time.Parse, model.ParseDuration modelled (ParseFloat only on the exact <=15 digit fragment; the rest counted as "
+    "outside_model_fragment); amd64 float->int64 conversion semantics.",
+    "DESIGN.md 4 C16")
+
 REASON_PENDING = "check not built yet in this round; planned (see DESIGN.md section 4/8) - no claim is made until the proof and correspondence exist"
 
 def main():
